@@ -1264,6 +1264,15 @@ impl Tuple {
         Ok(cursor)
     }
 
+    /// Removes the delete mark of this tuple (used when the transaction that set it was rolled
+    /// back: its mark does not count and must not block a later delete).
+    pub(crate) fn clear_delete_mark(&mut self) -> TupleResult<()> {
+        let buffer = self.data.effective_data_mut();
+        let (header, _) = TupleHeader::read_from(buffer, 0);
+        TupleHeader::new(header.version(), header.xmin(), None).write_to(buffer, 0);
+        Ok(())
+    }
+
     pub(crate) fn delete(&mut self, xid: TransactionId) -> TupleResult<()> {
         if self.is_deleted() {
             return Ok(());
